@@ -32,7 +32,7 @@ func scenarios(thorough bool) []e3drive.Scenario {
 	b := 2
 	var scs []e3drive.Scenario
 	add := func(sc e3scn.Scenario, bound int) {
-		scs = append(scs, e3drive.Scenario{Sc: sc, Bound: bound, Twice: true, DeadlockIsNotMine: true})
+		scs = append(scs, e3drive.Scenario{Sc: sc, Bound: bound, Twice: true, DeadlockIsNotMine: true, NondetIsViolation: true})
 	}
 	ot := o
 	ot.TailTicks = 3
@@ -98,7 +98,7 @@ func differing(outs []string) []string {
 
 func main() {
 	r := harness.Start("C05", "model_checking")
-	scs := scenarios(r.Thorough())
+	scs := scenarios(r.Thorough() || r.Replay != "") // replay: every scenario of either tier
 	if r.Replay != "" {
 		var f struct {
 			Signature string     `json:"signature"`
